@@ -2,6 +2,7 @@
 from __future__ import annotations
 
 import time
+from fractions import Fraction
 from typing import Any, Dict, List, Optional, Sequence, Tuple
 
 from rp2verif import common
@@ -81,6 +82,40 @@ def run_phases(
 
 
 
+def front_end_input(specs: List[Dict[str, Any]], asset: str = "B1") -> Tuple[Any, Any, List[Dict[str, Any]]]:
+    """The history written as a spreadsheet and read by the real parse_ods (in memory). Returns (configuration, InputData, specs as the
+    oracles must see them): rows are the sheet's rows, and an acquisition that pays its fee in crypto becomes the acquisition (fee in
+    fiat = fee x spot price) plus a fee-typed disposal of the fee at the same instant - RP2 creates that disposal itself, with a negative
+    id; it is matched here by instant and amount (when RP2 did not create it, the oracle still expects it, under a row no fraction can name)."""
+    from rp2verif import frdriver as D
+    from rp2verif import history as H
+    from rp2verif import sheets as S
+    from rp2verif.models.lots import F, parse_ts
+    from rp2verif.seams import parser as P
+
+    sheet, keyed = D.to_sheet(specs, asset)
+    cfg = P.config_for(S.canonical_layout())
+    input_data = P.parse_ods(cfg, asset, P.build_doc({asset: sheet}))
+    artificial = [t for t in input_data.unfiltered_out_transaction_set if t.row < 0]
+    used = set()
+    derived: List[Dict[str, Any]] = []
+    for n, s in enumerate(keyed):
+        fee = F(s.get("crypto_fee") or 0) if s["table"] == "in" else Fraction(0)
+        if fee <= 0:
+            derived.append(s)
+            continue
+        s2 = {k: v for k, v in s.items() if k != "crypto_fee"}
+        s2["fiat_fee"] = H.dec(fee * F(s["spot_price"]))
+        derived.append(s2)
+        ts = parse_ts(s["timestamp"])
+        match = next((t for t in artificial if id(t) not in used and t.timestamp == ts and F(t.crypto_fee) == fee and F(t.crypto_out_no_fee) == 0), None)
+        if match is not None:
+            used.add(id(match))
+        derived.append({"table": "out", "timestamp": s["timestamp"], "exchange": s["exchange"], "holder": s["holder"], "transaction_type": "FEE", "spot_price": s["spot_price"],
+                        "crypto_out_no_fee": "0", "crypto_fee": H.dec(fee), "row": match.row if match is not None else -(10**6) - n, "sym": f"crypto fee of row {s['row']}"})
+    return cfg, input_data, derived
+
+
 def generic_worker(task: Tuple[Any, ...]) -> Stats:
     """task = (root, depth, schedules, steps, max_dev, row_order, module name). The property module provides FIRST,
     SYMBOLS, EXTRA (over-spent extra levels or None), judge(st, hist, specs, schedule, outcome, label) and optionally
@@ -92,12 +127,15 @@ def generic_worker(task: Tuple[Any, ...]) -> Stats:
 
     root, depth, schedules, steps, max_dev, row_order, modname = task
     mod = import_module(modname)
-    tree = Tree(mod.FIRST, mod.SYMBOLS, steps, getattr(mod, "EXTRA", None))
+    front = max_dev == "front"  # phase through the whole front end, with its own alphabet (FE_FIRST / FE_SYMBOLS of the property module)
+    tree = Tree(mod.FE_FIRST if front else mod.FIRST, mod.FE_SYMBOLS if front else mod.SYMBOLS, steps, getattr(mod, "EXTRA", None))
     cfg = C.configuration("us", **getattr(mod, "CFG_KW", {"allow_negative_balances": True}))
     st = Stats()
     for hist in tree.level(root, depth):
         variants = [(hist, {"scale": 1}, "")]
-        if max_dev:
+        if front:
+            variants = [(hist, {"scale": 1, "front_end": True}, f"front end: spreadsheet -> parse_ods, rows {row_order}")]
+        elif max_dev:
             variants = mod.deviations(hist, max_dev)
         for h2, opts, label in variants:
             specs = H.materialize(h2, scale=opts["scale"], row_order=row_order, price_scale=opts.get("price_scale", 1), **({"base": opts["base"]} if opts.get("base") else {}))
@@ -110,7 +148,10 @@ def generic_worker(task: Tuple[Any, ...]) -> Stats:
                 last = max(parse_ts(s2["timestamp"]).date() for s2 in specs)
                 run_cfg = C.configuration("us", from_date=last, **getattr(mod, "CFG_KW", {"allow_negative_balances": True}))
             try:
-                input_data = C.build_input(run_cfg, specs)
+                if opts.get("front_end"):
+                    run_cfg, input_data, specs = front_end_input(specs)
+                else:
+                    input_data = C.build_input(run_cfg, specs)
             except Exception as exc:  # pylint: disable=broad-except
                 for sch in schedules:
                     mod.judge(st, h2, specs, sch, C.Outcome(None, exc, None), label)
@@ -154,13 +195,19 @@ def replay_compute(modname: str, path: str) -> int:
     for _ in range(2):
         st = Stats()
         try:
-            input_data = C.build_input(cfg, specs)
+            run_cfg = cfg
+            if payload.get("deviation", "").startswith("front end"):
+                from rp2verif import history as H
+
+                run_cfg, input_data, specs = front_end_input(H.materialize(hist, row_order="reverse" if payload["deviation"].endswith("rows reverse") else "chrono"))
+            else:
+                input_data = C.build_input(cfg, specs)
             eng = C.engine(schedule)
             if "another asset computed first" in payload.get("deviation", "") and hasattr(mod, "PRELUDE"):
                 from rp2verif import history as H
 
                 C.compute_tax(cfg, eng, C.build_input(cfg, H.materialize(mod.PRELUDE), "B2"))
-            computed = C.compute_tax(cfg, eng, input_data)
+            computed = C.compute_tax(run_cfg, eng, input_data)
             out = C.Outcome(computed, None, input_data)
         except Exception as exc:  # pylint: disable=broad-except
             out = C.Outcome(None, exc, None)
